@@ -7,6 +7,10 @@ use radix_engine::blueprints::pool::v1::v1_1::*;
 use radix_engine::errors::RuntimeError;
 use radix_common::types::{NodeId, PartitionNumber, SubstateKey};
 use radix_engine::kernel::substate_locks::SubstateLocks;
+use radix_engine::system::system_modules::costing::*;
+use radix_engine::transaction::CostingParameters;
+use radix_engine_interface::blueprints::resource::LiquidFungibleResource;
+use radix_transactions::model::{TipSpecifier, TransactionCostingParameters};
 use std::io::BufRead;
 use std::str::FromStr;
 
@@ -78,8 +82,101 @@ fn locks_run(a: &[&str]) -> String {
     format!("val {}", out.join(" "))
 }
 
+/// `fee_run <P> <limit> <loan> <Pf> <flimit> <usd> <ssp> <asp> <tipkind 0|1|2> <tipval> <credit> <ops...>`
+/// (prices and amounts in attos). ops: `LOCK <amount> <contingent 0|1>`, `EXEC <units>`, `FIN <units>`,
+/// `STOR <0 state|1 archive> <size>`, `BAL`, `FINALIZE` (must be last). Each op prints one token group.
+fn fee_run(a: &[&str]) -> String {
+    let cp = CostingParameters {
+        execution_cost_unit_price: dec(a[0]),
+        execution_cost_unit_limit: a[1].parse().unwrap(),
+        execution_cost_unit_loan: a[2].parse().unwrap(),
+        finalization_cost_unit_price: dec(a[3]),
+        finalization_cost_unit_limit: a[4].parse().unwrap(),
+        usd_price: dec(a[5]),
+        state_storage_price: dec(a[6]),
+        archive_storage_price: dec(a[7]),
+    };
+    let tip = match a[8] {
+        "0" => TipSpecifier::None,
+        "1" => TipSpecifier::Percentage(a[9].parse().unwrap()),
+        _ => TipSpecifier::BasisPoints(a[9].parse().unwrap()),
+    };
+    let tcp = TransactionCostingParameters {
+        tip,
+        free_credit_in_xrd: dec(a[10]),
+    };
+    let mut r = SystemLoanFeeReserve::new(cp, tcp, false);
+    let mut out: Vec<String> = vec![];
+    let mut i = 11;
+    while i < a.len() {
+        match a[i] {
+            "LOCK" => {
+                r.lock_fee(node("9"), LiquidFungibleResource::new(dec(a[i + 1])), a[i + 2] == "1");
+                out.push("ok".into());
+                i += 3;
+            }
+            "EXEC" => {
+                out.push(match r.consume_execution(a[i + 1].parse().unwrap()) {
+                    Ok(()) => "ok".into(),
+                    Err(FeeReserveError::LimitExceeded { .. }) => "limit".into(),
+                    Err(FeeReserveError::InsufficientBalance { .. }) => "insufficient".into(),
+                    Err(FeeReserveError::Overflow) => "overflow".into(),
+                    Err(_) => "err".into(),
+                });
+                i += 2;
+            }
+            "FIN" => {
+                out.push(match r.consume_finalization(a[i + 1].parse().unwrap()) {
+                    Ok(()) => "ok".into(),
+                    Err(FeeReserveError::LimitExceeded { .. }) => "limit".into(),
+                    Err(FeeReserveError::InsufficientBalance { .. }) => "insufficient".into(),
+                    Err(FeeReserveError::Overflow) => "overflow".into(),
+                    Err(_) => "err".into(),
+                });
+                i += 2;
+            }
+            "STOR" => {
+                let t = if a[i + 1] == "0" { StorageType::State } else { StorageType::Archive };
+                out.push(match r.consume_storage(t, a[i + 2].parse().unwrap()) {
+                    Ok(()) => "ok".into(),
+                    Err(FeeReserveError::InsufficientBalance { .. }) => "insufficient".into(),
+                    Err(FeeReserveError::Overflow) => "overflow".into(),
+                    Err(_) => "err".into(),
+                });
+                i += 3;
+            }
+            "BAL" => {
+                out.push(format!("{}", r.fee_balance().attos()));
+                i += 1;
+            }
+            "FINALIZE" => {
+                let (s, _, _) = r.finalize();
+                out.push(format!(
+                    "{} {} {} {} {} {} {} {} {} {} {} {}",
+                    s.total_execution_cost_units_consumed,
+                    s.total_finalization_cost_units_consumed,
+                    s.total_execution_cost_in_xrd.attos(),
+                    s.total_finalization_cost_in_xrd.attos(),
+                    s.total_tipping_cost_in_xrd.attos(),
+                    s.total_royalty_cost_in_xrd.attos(),
+                    s.total_storage_cost_in_xrd.attos(),
+                    s.total_bad_debt_in_xrd.attos(),
+                    s.total_cost().attos(),
+                    s.to_proposer_amount().attos(),
+                    s.to_validator_set_amount().attos(),
+                    s.to_burn_amount().attos()
+                ));
+                return format!("val {}", out.join(" "));
+            }
+            _ => return "bad-script".to_string(),
+        }
+    }
+    format!("val {}", out.join(" "))
+}
+
 fn run(a: &[&str]) -> String {
     match a[0] {
+        "fee_run" => fee_run(&a[1..]),
         "locks_run" => locks_run(&a[1..]),
         "pool1_owed" => rd(verif_one_resource_pool_calculate_amount_owed(
             dec(a[1]),
